@@ -166,6 +166,12 @@ def run_unit(unit, rng, ctx):
     else:
         F3 = np.asarray(vol.get_free_energy(temperature=temp).data)
         ctx.check(np.array_equal(F3, Fd), f'{what}: asking get_free_energy twice gives different grids', wit)
+        # the same Volume asked for ANOTHER temperature answers for that temperature
+        temp4 = float(temp * rng.uniform(1.5, 4.0))
+        F4 = np.asarray(vol.get_free_energy(temperature=temp4).data)
+        w4 = -KB_EV * temp4 * np.log(p[visited].astype(float))
+        ctx.check(bool(np.all(np.isfinite(F4))) and np.allclose(F4[visited], w4, rtol=rt, atol=(1e-6 if single else 1e-12) * KB_EV * temp4), f'{what}: the same Volume asked again at {temp4:.4g} K does not give -k_B T ln(p) for that temperature (max dev {np.abs(F4[visited] - w4).max():.3e} eV)', wit)
+        ctx.count('requery_at_another_temperature')
     nv = int(visited.sum())
     ctx.count(f'mode:{mode}')
     ctx.count('voxels_checked', data.size)
